@@ -18,6 +18,8 @@ Definition run_c19 (l : list Z) : list Z :=
   | [1; a; b; c; d] => enc_orect (from_ltrb (fz a) (fz b) (fz c) (fz d))
   | [2; a; b; c; d] => enc_orect (from_xywh (fz a) (fz b) (fz c) (fz d))
   | [3; a; b; c; d] => enc_orect (nz_from_ltrb (fz a) (fz b) (fz c) (fz d))
+  (* NonZeroRect::from_xywh = from_ltrb(x, y, w + x, h + y): the stored edges decide, not the requested size *)
+  | [36; x; y; w; h] => enc_orect (nz_from_ltrb (fz x) (fz y) (F32.add (fz w) (fz x)) (F32.add (fz h) (fz y)))
   | [4; a; b] => match size_from_wh (fz a) (fz b) with
                  | Some (w, h) => [F32.to_bits w; F32.to_bits h] | None => [-1] end
   | [5; a; b; c; d; e; f; g; h] =>
